@@ -130,6 +130,16 @@ func EvalPred(p gen.Pred, e Env) (bool, error) {
 	case gen.InSub:
 		v := e.Row[t.Col]
 		for _, or := range e.Tables[t.Table] {
+			if t.CorrOuter != "" {
+				// correlated: only the other table's rows whose CorrInner equals this row's CorrOuter
+				a, b := e.Row[t.CorrOuter], or[t.CorrInner]
+				if a == nil || b == nil {
+					continue
+				}
+				if c, err := CmpScalar(a, b); err != nil || c != 0 {
+					continue
+				}
+			}
 			ov, ok := or[t.OtherCol]
 			if !ok || ov == nil {
 				continue
